@@ -166,7 +166,7 @@ func init() {
 		"sync.runtime_registerPoolCleanup", "sync.runtime_procPin", "sync.runtime_procUnpin",
 		"internal/race.Acquire", "internal/race.Release", "internal/race.ReleaseMerge", "internal/race.Disable", "internal/race.Enable",
 		"internal/race.Read", "internal/race.Write", "internal/race.ReadRange", "internal/race.WriteRange",
-		"runtime.AddCleanup", "internal/godebug.(*Setting).IncNonDefault", "runtime.SetCrashOutput")
+		"runtime.AddCleanup", "internal/godebug.(*Setting).IncNonDefault", "(*internal/godebug.Setting).IncNonDefault", "runtime.SetCrashOutput")
 	reg(func(w *Worker, caller *frame, _ *ssa.Function, a []Value) Value {
 		// (*sync.Once).Do(f): field "done" is the first field (atomic.Uint32 / uint32)
 		p := a[0].(PtrV)
@@ -326,10 +326,10 @@ func init() {
 	}, "runtime.GOMAXPROCS", "runtime.NumCPU")
 	reg(func(w *Worker, _ *frame, fn *ssa.Function, a []Value) Value {
 		return w.mkStr("")
-	}, "os.Getenv", "syscall.Getenv", "internal/godebug.(*Setting).Value")
+	}, "os.Getenv", "syscall.Getenv", "internal/godebug.(*Setting).Value", "(*internal/godebug.Setting).Value")
 	reg(func(w *Worker, _ *frame, fn *ssa.Function, a []Value) Value {
 		return w.TF.False
-	}, "internal/godebug.(*Setting).Undocumented")
+	}, "internal/godebug.(*Setting).Undocumented", "(*internal/godebug.Setting).Undocumented")
 	reg(func(w *Worker, caller *frame, fn *ssa.Function, a []Value) Value {
 		// errors.Is/As go through reflectlite for comparability; model directly
 		return w.errorsIs(caller, a[0], a[1])
